@@ -1458,9 +1458,14 @@ impl Melda {
         other_delta_items.iter().for_each(|(did, _delta)| {
             if !deltas_r.contains_key(did) {
                 if let Ok(raw_delta) = other.fetch_raw_delta(did) {
-                    if let Ok(delta) = self.load_raw_delta(did, raw_delta) {
-                        if let Ok(json) = delta.to_json_string() {
-                            if data_w.write_raw_item(&did.key(), json.as_bytes()).is_ok() {
+                    if self.load_raw_delta(did, raw_delta).is_ok() {
+                        // The verified bytes are copied as they are: a block written with another
+                        // spacing, key order or number format is valid, but serialised again it
+                        // would no longer hash to its name
+                        if let Ok(bytes) = other_data_r.read_raw_item(&did.key(), 0, 0) {
+                            if digest_bytes(bytes.as_slice()).eq(did.digest())
+                                && data_w.write_raw_item(&did.key(), bytes.as_slice()).is_ok()
+                            {
                                 result.push(did.key());
                             }
                         }
